@@ -1,0 +1,22 @@
+//go:build verif
+
+// Package verifhook contains observation points used only by the external verification harness.
+// With the build tag "verif" off (the default) every function in this package is an empty, inlinable no-op.
+package verifhook
+
+// JoinRecvFn, when set, is called in the join goroutine right after it has taken one message (or observed the
+// close) from one of its input channels. side: 0 = left, 1 = right.
+var JoinRecvFn func(join interface{}, side int, ok bool, metadata bool, isErr bool)
+
+func JoinRecv(join interface{}, side int, ok bool, metadata bool, isErr bool) {
+	if JoinRecvFn != nil {
+		JoinRecvFn(join, side, ok, metadata, isErr)
+	}
+}
+
+func Side(leftDone bool) int {
+	if leftDone {
+		return 1
+	}
+	return 0
+}
